@@ -53,7 +53,7 @@ fn step_class(p: &Pos, m: Mv) -> Option<&'static str> {
 pub fn step(b: &Board, p: &Pos, m: Mv, in_place: bool, stats: &mut Stats) -> Result<(Board, Pos), Failure> {
     let g = eng::mg();
     let uci = m.uci();
-    let fen = p.fen(0, 1);
+    let fen = eng::fen(&p);
     let em = guarded("generate_moves", || eng::find_engine_move(&g, b, &uci))?;
     let Some(em) = em else {
         return Err(Failure::new("move-not-generated", json!({"fen": fen, "move": uci})));
@@ -84,7 +84,7 @@ pub fn step(b: &Board, p: &Pos, m: Mv, in_place: bool, stats: &mut Stats) -> Res
         } else {
             "inconsistent-board"
         };
-        return Err(Failure::new(kind, json!({"fen": fen, "move": uci, "move_kind": format!("{:?}", p.info(m)), "expected": np.fen(0,1), "why": why})));
+        return Err(Failure::new(kind, json!({"fen": fen, "move": uci, "move_kind": format!("{:?}", p.info(m)), "expected": eng::fen(&np), "why": why})));
     }
     if let Some(c) = step_class(p, m) {
         stats.class(c);
@@ -94,13 +94,38 @@ pub fn step(b: &Board, p: &Pos, m: Mv, in_place: bool, stats: &mut Stats) -> Res
     Ok((nb, np))
 }
 
+/// Lock-step game from a start position (structural form of a playout case).
+pub fn check_game(start: &Pos, moves: &[String], in_place: bool, stats: &mut Stats) -> Verdict {
+    let mut b = guarded("Board::new", || eng::to_board(start))?;
+    let mut p = start.clone();
+    for (i, uci) in moves.iter().enumerate() {
+        let Some(m) = p.find_uci(uci) else {
+            return Err(Failure::new("harness-illegal-move-in-replay", json!({"fen": eng::fen(&p), "move": uci})));
+        };
+        match step(&b, &p, m, in_place, stats) {
+            Ok((nb, np)) => {
+                b = nb;
+                p = np;
+            }
+            Err(mut f) => {
+                f.detail["replay"] = json!({"start_fen": eng::fen(&start), "moves": moves[..=i].to_vec(), "in_place": in_place});
+                return Err(f);
+            }
+        }
+    }
+    Ok(())
+}
+
 fn part_allmoves(bytes: &[u8], stats: &mut Stats) -> Verdict {
     let mut s = Src::new(bytes);
     let (p, kind) = gen::g_mix(&mut s);
     stats.class(&format!("gen_{}", kind));
     let b = guarded("Board::new", || eng::to_board(&p))?;
     for m in p.legal_moves() {
-        step(&b, &p, m, false, stats)?;
+        step(&b, &p, m, false, stats).map_err(|mut f| {
+            f.detail["replay"] = json!({"start_fen": eng::fen(&p), "moves": [m.uci()], "in_place": false});
+            f
+        })?;
     }
     Ok(())
 }
@@ -111,22 +136,10 @@ fn part_playouts(bytes: &[u8], stats: &mut Stats) -> Verdict {
     let in_place = s.bool();
     let n = gen::ply_count(&mut s, 300);
     let (steps, _) = gen::playout(&mut s, &start, n);
-    let mut b = guarded("Board::new", || eng::to_board(&start))?;
     stats.class("playouts");
     stats.class_n("playout_plies", steps.len() as u64);
-    let mut hist: Vec<String> = Vec::new();
-    for (p, m) in &steps {
-        match step(&b, p, *m, in_place, stats) {
-            Ok((nb, _)) => b = nb,
-            Err(mut f) => {
-                f.detail["start_fen"] = json!(start.fen(0, 1));
-                f.detail["moves_before"] = json!(hist);
-                return Err(f);
-            }
-        }
-        hist.push(m.uci());
-    }
-    Ok(())
+    let moves: Vec<String> = steps.iter().map(|x| x.1.uci()).collect();
+    check_game(&start, &moves, in_place, stats)
 }
 
 pub fn run(tier: Tier, seed: u64, known: &Known) -> PropRun {
@@ -151,7 +164,32 @@ pub fn run(tier: Tier, seed: u64, known: &Known) -> PropRun {
     run
 }
 
-pub fn replay(part: &str, bytes: &[u8], _case: &Value, stats: &mut Stats) -> Verdict {
+/// Structural replay: a start position and the moves played from it.
+fn replay_case(case: &Value, stats: &mut Stats) -> Option<Verdict> {
+    let r = case.get("replay")?;
+    let start = eng::pos_from_saved_fen(r.get("start_fen")?.as_str()?)?;
+    let moves: Vec<String> = r.get("moves")?.as_array()?.iter().filter_map(|m| m.as_str().map(|s| s.to_string())).collect();
+    let in_place = r.get("in_place").and_then(|x| x.as_bool()).unwrap_or(false);
+    Some(check_game(&start, &moves, in_place, stats))
+}
+
+/// Old files: {fen, move} of an all-moves case.
+fn replay_fen_move(case: &Value, stats: &mut Stats) -> Option<Verdict> {
+    if case.get("start_fen").is_some() {
+        let start = eng::pos_from_saved_fen(case.get("start_fen")?.as_str()?)?;
+        let mut moves: Vec<String> = case.get("moves_before")?.as_array()?.iter().filter_map(|m| m.as_str().map(|s| s.to_string())).collect();
+        moves.push(case.get("move")?.as_str()?.to_string());
+        return Some(check_game(&start, &moves, false, stats).and(check_game(&start, &moves, true, stats)));
+    }
+    let p = eng::pos_from_saved_fen(case.get("fen")?.as_str()?)?;
+    let mv = vec![case.get("move")?.as_str()?.to_string()];
+    Some(check_game(&p, &mv, false, stats).and(check_game(&p, &mv, true, stats)))
+}
+
+pub fn replay(part: &str, bytes: &[u8], case: &Value, stats: &mut Stats) -> Verdict {
+    if let Some(v) = replay_case(case, stats).or_else(|| replay_fen_move(case, stats)) {
+        return v;
+    }
     match part {
         "allmoves" => part_allmoves(bytes, stats),
         "playouts" => part_playouts(bytes, stats),
